@@ -15,6 +15,7 @@ import tempfile
 import numpy as np
 
 from vmon import gen
+from vmon.core import HarnessError as core_HarnessError
 from vmon.core import bit_equal
 
 PROPERTY = 'C08'
@@ -33,6 +34,10 @@ ASSUMPTIONS = [
     'view and must not depend on unspecified SQL result order (checked with PRAGMA reverse_unordered_selects)',
     'shuffled_clients is never called on an empty view (infinite empty loop, outside the domain)',
     'a stack on which an operation raised (e.g. A5) stops receiving operations; its earlier views stay under observation',
+    'several iterators over one view object may be alive at once (single-threaded interleaving); each behaves as if run alone',
+    '"deterministic iteration order" includes independence from the interpreter\'s hash randomisation: the first 25 (quick) / '
+    '60 (thorough) histories of every shard are replayed in a fresh process with another PYTHONHASHSEED and must expose the same '
+    'orders through client_ids / client_sizes / clients / shuffled_clients',
 ]
 SHARDS = {'quick': 4, 'thorough': 14}
 SHARD_TIMEOUT = {'quick': 600, 'thorough': 2400}
@@ -48,9 +53,11 @@ _Q = {
     'empty-view': 30, 'start>stop': 15, 'boundary-hit': 60, 'enlarging-slice': 40, 'slice-of-subset': 30,
     'subset-of-slice': 30, 'nul-family-ids': 60, 'prefix-family-ids': 40, 'rowchanging-pre': 10,
     'out-of-view-probe-nul-variant': 600,
+    'hit:interleaved-scans': 5000, 'mon:interleave': 40000,
 }
 # thorough runs 10x the quick number of histories
-MIN_HITS = {'quick': _Q, 'thorough': {k: 10 * v for k, v in _Q.items()}}
+MIN_HITS = {'quick': dict(_Q, **{'hit:fresh-interpreter-history': 80}),
+            'thorough': dict({k: 10 * v for k, v in _Q.items()}, **{'hit:fresh-interpreter-history': 600})}
 TECHNIQUE = ('runtime monitoring: dict reference model + 5-way implementation differential (in-memory, SQLite via the real '
              'builder, both subset-wrapped, SQLite under reverse_unordered_selects) over random view-operation histories with '
              'value-tracing preprocessors and re-observation of every ancestor view')
@@ -65,6 +72,15 @@ LEVEL_NOTE = ('Trusts Python bytes ordering, NumPy slicing, sqlite3 and the ~60-
 
 TRACE_COLS = ('trace', 'btrace')
 STACKS = ('mem', 'sql', 'submem', 'subsql', 'sqlr')
+
+# Order observations of the current case (list of [stack, depth, field, [hex ids]]) when not None; compared with the same
+# case replayed in a fresh interpreter under another PYTHONHASHSEED ("iteration order is deterministic").
+ORDER_TRACE = None
+
+
+def order_trace(wit, field, ids):
+  if ORDER_TRACE is not None:
+    ORDER_TRACE.append([wit.get('stack'), wit.get('depth'), field, [bytes(c).hex() if isinstance(c, bytes) else repr(c) for c in ids]])
 
 
 def idh(cid):
@@ -381,9 +397,12 @@ def observe(ctx, view, model, params, wit):
     summ['n'] = r.value
     ctx.check(r.value == n, 'ids/num_clients', f'num_clients()={r.value}, reference {n}', wit)
 
+  ids_order = None
   r = ctx.call('client_ids', lambda: list(view.client_ids()), witness=wit)
   if r.ok:
     got = r.value
+    ids_order = list(got)
+    order_trace(wit, 'client_ids', got)
     summ['ids'] = tuple(sorted(got))
     ctx.check(len(set(got)) == len(got), 'ids/client_ids-duplicate', 'client_ids() repeats an id', dict(wit, got=got))
     ctx.check(sorted(got) == list(C) and all(isinstance(g, bytes) for g in got), 'ids/client_ids-set',
@@ -391,9 +410,12 @@ def observe(ctx, view, model, params, wit):
 
   r = ctx.call('client_sizes', lambda: list(view.client_sizes()), witness=wit)
   sizes = None
+  sizes_order = None
   if r.ok:
     got = r.value
     sizes = dict(got)
+    sizes_order = list(got)
+    order_trace(wit, 'client_sizes', [c for c, _ in got])
     summ['sizes'] = tuple(sorted(sizes.items()))
     ctx.check(sorted(c for c, _ in got) == list(C), 'ids/client_sizes-set',
               'client_sizes() ids differ from the reference id set (missing, extra or repeated)',
@@ -415,6 +437,7 @@ def observe(ctx, view, model, params, wit):
     first_pass_len = len(p1)
     o1, o2 = [c for c, _ in p1], [c for c, _ in p2]
     summ['order'] = tuple(o1)
+    order_trace(wit, 'clients', o1)
     ctx.check(o1 == o2, 'order/clients-two-passes', 'two clients() passes visit clients in different orders',
               dict(wit, first=o1, second=o2))
     ctx.check(sorted(o1) == list(C), 'ids/clients-set', 'clients() ids differ from the reference (missing, extra or repeated)',
@@ -436,11 +459,52 @@ def observe(ctx, view, model, params, wit):
       items = r.value
       so = [c for c, _ in items]
       summ['shuffled'] = tuple(so)
+      order_trace(wit, 'shuffled_clients', so)
       for pno, part in enumerate((so[:n], so[n:])):
         ctx.check(sorted(part) == list(C), 'shuffle/pass-not-permutation',
                   f'shuffled pass {pno} does not visit every client of the view exactly once', dict(w, got=part, expected=C))
       for c, ds in items:
         compare_ds(ctx, 'shuffled', c, ds, model, w)
+
+  # interleaved scans on the SAME view object: a half-consumed pass is neither disturbed by, nor disturbs, other scans
+  if n and first_pass_len and 'shuffled' in summ and 'order' in summ and ids_order is not None and sizes_order is not None:
+    buf, seed = params['buf'], params['seed']
+    k = 1 + (seed + len(params['req'])) % (2 * n - 1) if n > 1 else 1
+    w = dict(wit, buffer_size=buf, shuffle_seed=seed, taken_before_other_scans=k)
+
+    def interleaved():
+      it = view.shuffled_clients(buf, seed)
+      head = [c for c, _ in itertools.islice(it, k)]
+      it_ids = view.client_ids()
+      first_id = [next(it_ids)]
+      it_cl = view.clients()
+      first_cl = [next(it_cl)[0]]
+      mid_clients = [c for c, _ in view.clients()]
+      it_sizes = view.client_sizes()
+      first_size = [next(it_sizes)]
+      mid_ids = list(view.client_ids())
+      mid_sizes = list(view.client_sizes())
+      tail = [c for c, _ in itertools.islice(it, 2 * n - k)]
+      lock = [(a[0], b[0]) for a, b in zip(view.clients(), view.clients())]
+      return (head + tail, mid_clients, mid_ids, mid_sizes, first_id + list(it_ids), first_size + list(it_sizes),
+              first_cl + [c for c, _ in it_cl], lock)
+
+    r = ctx.call('interleaved-scans', interleaved, witness=w)
+    if r.ok:
+      sh, mid_clients, mid_ids, mid_sizes, res_ids, res_sizes, res_cl, lock = r.value
+      ctx.count('hit:interleaved-scans')
+      ctx.check(tuple(sh) == summ['shuffled'], 'interleave/shuffled-pass-disturbed',
+                'a shuffled_clients() stream paused while other scans ran on the same view differs from the uninterrupted stream '
+                '(same buffer size and seed)', dict(w, uninterrupted=summ['shuffled'], interleaved=sh))
+      for got, want, what in ((mid_clients, list(summ['order']), 'clients()'), (mid_ids, ids_order, 'client_ids()'),
+                              (mid_sizes, sizes_order, 'client_sizes()'), (res_ids, ids_order, 'resumed client_ids()'),
+                              (res_sizes, sizes_order, 'resumed client_sizes()'), (res_cl, list(summ['order']), 'resumed clients()')):
+        ctx.check(got == want, 'interleave/scan-disturbed',
+                  f'{what} run while other scans of the same view were half-consumed differs from the same scan run alone',
+                  dict(w, scan=what, alone=want, interleaved=got))
+      ctx.check(lock == [(c, c) for c in summ['order']], 'interleave/two-clients-iterators',
+                'two clients() iterators of one view advanced in lock step do not both visit the view in order',
+                dict(w, got=lock, expected=summ['order']))
 
   # get_clients in request order (with repeats)
   req = params['req']
@@ -682,6 +746,8 @@ def run_case(ctx, fedjax, mods, rng, tmpdir, case_no):
       klass.add('zero-row-client')
     klass.add(f'len={L}')
     key = (tuple(ids), tuple(rows[c] for c in ids), tuple(table[ids[0]]), tuple(descrs)) if L >= 1 else None
+    if ORDER_TRACE is not None:
+      ORDER_TRACE.append([None, None, 'input', repr((ids, [rows[c] for c in ids], list(table[ids[0]]), ins, descrs))])
     ctx.case_done(key, sample=dict(base_wit, ops=descrs), klass=sorted(klass))
   finally:
     for c in conns:
@@ -722,10 +788,66 @@ def run(ctx):
   from fedjax.core import sqlite_federated_data as sq
   model_selfcheck()
   install_contract(ctx, fdm)
+  global ORDER_TRACE
   ncases = 400 if ctx.quick else 4000
   tmpdir = tempfile.mkdtemp(prefix='vmon-c08-', dir=os.environ.get('VMON_WORK') or None)
+  traces = {}
   try:
     for cid, rng in ctx.cases('hist', ncases):
+      ORDER_TRACE = []
       run_case(ctx, fedjax, (fdm, im, sq), rng, tmpdir, int(cid.split('/')[1]))
+      traces[cid] = ORDER_TRACE
+      ORDER_TRACE = None
   finally:
     shutil.rmtree(tmpdir, ignore_errors=True)
+  if ctx.xproc_child:
+    return traces
+  # ---- "iteration order is deterministic": the first histories of this shard replayed in a FRESH interpreter with another
+  # PYTHONHASHSEED must expose every view in the same orders (shards themselves always run with PYTHONHASHSEED=0).
+  from vmon import xproc
+  sel = list(traces)[:XPROC_CASES['quick' if ctx.quick else 'thorough']]
+  if sel:
+    hs = 1 + (ctx.seed + ctx.shard) % 97
+    other = xproc.run_child('vmon.checks.c08', {'tier': ctx.tier, 'seed': ctx.seed, 'cases': sel}, hs, timeout=1500)
+    for cid in sel:
+      ctx.cur_case = cid
+      mine, theirs = traces[cid], other['traces'].get(cid)
+      if theirs is None or [e for e in mine if e[2] == 'input'] != [e for e in theirs if e[2] == 'input']:
+        raise core_HarnessError(f'{cid}: the fresh-interpreter replay generated a different history (harness is hash-dependent)')
+      ctx.count('hit:fresh-interpreter-history')
+      diff = next((i for i, (a, b) in enumerate(zip(mine, theirs)) if a != b), None)
+      if diff is None and len(mine) != len(theirs):
+        diff = min(len(mine), len(theirs))
+      w = None
+      if diff is not None:
+        a = mine[diff] if diff < len(mine) else None
+        b = theirs[diff] if diff < len(theirs) else None
+        w = {'other_pythonhashseed': hs, 'this_process': a, 'fresh_process': b, 'observations_compared': len(mine)}
+      ctx.check(diff is None, 'order/depends-on-hash-seed',
+                'the same history replayed in a fresh Python process (other PYTHONHASHSEED) exposes a view in a different '
+                'iteration order', w)
+    ctx.cur_case = None
+    for key, cnt in other['violation_keys'].items():
+      if key not in ctx.violation_keys:
+        v = next((v for v in other['violations'] if v['key'] == key), None)
+        ctx.cur_case = v['case'] if v else None
+        ctx.violation(key, (v['what'] if v else key) + f' [only in the fresh-interpreter replay, PYTHONHASHSEED={hs}]',
+                      v['witness'] if v else None)
+    ctx.cur_case = None
+
+
+XPROC_CASES = {'quick': 25, 'thorough': 60}
+
+
+def _xproc_child(payload):
+  from vmon.core import Ctx
+  ctx = Ctx(PROPERTY, payload['tier'], payload['seed'], 0, 1)
+  ctx.xproc_child = True
+  ctx.only_cases = set(payload['cases'])
+  traces = run(ctx)
+  return {'traces': traces, 'violation_keys': ctx.violation_keys, 'violations': ctx.violations}
+
+
+if __name__ == '__main__':
+  from vmon import xproc as _xproc
+  _xproc.child_main(_xproc_child)
